@@ -259,7 +259,8 @@ def gen_spec(rng, *, pool=None, n_base=None, max_len=4, labels=None, with_m=None
     if with_m:
         omen = gen_omen(rng)
         lv = omen_levels or rng.randint(1, 3)
-        levels = rng.sample(range(0, 8), lv)
+        # levels 10 and above hold the strings that spend a whole level-10 step (an unseen transition / initial n-gram / length)
+        levels = rng.sample(list(range(0, 8)) + [10, 11, 12, 20], lv)
         pr = sorted({round(rng.random() * 0.1, 6) + 1e-6 * (i + 1) for i in range(lv)}, reverse=True)
         while len(pr) < lv:
             pr.append(pr[-1] / 2)
